@@ -32,6 +32,9 @@ def scenarios(tier):
         for i, m in enumerate(CORE_MODELS):
             sc.append(hc.scen(f"m{i}_T2ck2", m, T=2, ck=2, p=1))
             sc.append(hc.scen(f"m{i}_T3ck0gp1", m, T=3, ck=0, gp=1, p=1))
+        # longer runs with back-to-back GVT rounds: fossil collection while ties are pending
+        sc.append(hc.scen("trickle0", T(2, [2, 1], [2, 1, 2], P=5, K=100, H=24), T=2, ck=1, p=1))
+        sc.append(hc.scen("trickle1", T(3, [1, 2, 1], [2, 1, 7], P=5, K=100, H=12), T=3, ck=1, p=1))
         sc.append(hc.scen("m0_p2", CORE_MODELS[0], T=2, ck=3, p=2, j=8))
         sc.append(hc.scen("m1_p2", CORE_MODELS[1], T=2, ck=1, p=2, j=8))
         for i, m in enumerate(models.enumerate_models(limit=150)[::3]):
@@ -58,7 +61,7 @@ def run(tier, seed):
     binary = hc.build(d)
     reps, m, viol = vc.rsched_scenarios(PID, "h_run", binary, scenarios(tier), d, workers=8)
     if not viol:
-        for k in ("rollbacks", "anti_messages", "silent_executions", "end_state_compared", "ended_by_predicate"):
+        for k in ("rollbacks", "anti_messages", "silent_executions", "end_state_compared", "ended_by_predicate", "fossil_releases"):
             if hc.counters_nz(m, k) == 0:
                 raise vc.EngineError(f"vacuous: no execution with '{k}'")
     n = vc.triage(PID, viol)
